@@ -180,6 +180,20 @@ pub fn main(args: &Args) -> i32 {
             }
         }
     }
+    for (enum_attrs, attr, reason) in model::soup::MUST_REJECT_DEFS {
+        for extra in ["", "#[logos(skip \" +\")]\n"] {
+            let src = format!("#[derive(Logos)]\n{enum_attrs}\n{extra}enum T {{\n    {attr}\n    V0,\n    #[token(\"zq\")]\n    V1,\n}}\n");
+            let d = derive_rust(src.clone());
+            run.eval(1);
+            run.count("must_reject_classes_alone", 1);
+            if let Err(msg) = judge(&src, Some(reason), true, &d) {
+                run.violations = 1;
+                report_violation("C19", &args.replay_dir, &json!({"property": "C19", "tier": "G", "source": src, "must_reject": reason, "fragments_ok": true, "findings": [{"property": "C19", "what": msg}]}));
+                run.write_evidence(&args.evidence);
+                return 1;
+            }
+        }
+    }
     for (shape, reason) in model::soup::MUST_REJECT_SHAPES {
         let src = format!("#[derive(Logos)]\nenum T {{\n    #[token(\"mr\")]\n    V0{shape},\n    #[token(\"zq\")]\n    V1,\n}}\n");
         let d = derive_rust(src.clone());
